@@ -18,14 +18,14 @@ Classes(f) ==
   CASE f \in {"idx_lenword", "cfoot_lenword"}        -> {"zero", "small", "minus1", "plus1", "eqpos", "gtpos", "max32"}
     [] f \in {"idx_count", "idx_noffs", "cfoot_count"} -> {"zero", "plus1", "under_limit", "big32", "max64"}
     [] f \in {"idx_namelen", "start_namelen"}         -> {"zero", "gt_remaining", "toolong", "under_limit", "max64"}
-    [] f \in {"idx_offset", "idx_eof"}                -> {"zero", "foreign_block", "mid_content", "stream_end", "out_of_range", "max64", "self_eof"}
-    [] f = "idx_size"                                 -> {"zero", "max64"}
+    [] f \in {"idx_offset", "idx_eof"}                -> {"zero", "foreign_block", "mid_content", "stream_end", "out_of_range", "max64", "self_eof", "sign63", "sign63m1"}
+    [] f = "idx_size"                                 -> {"zero", "max64", "sign63"}
     [] f = "block_type"                               -> {"invalid", "start", "content", "eof", "end"}
     [] f = "block_id"                                 -> {"unknown", "other"}
-    [] f = "content_len"                              -> {"zero", "gt_remaining", "max64", "minus1", "plus1"}
+    [] f = "content_len"                              -> {"zero", "gt_remaining", "max64", "minus1", "plus1", "sign63", "sign63m1", "neg17", "neg18", "neg41", "neg58"}
     [] f = "eof_hash"                                 -> {"flipped"}
-    [] f = "cfoot_size"                               -> {"zero", "plus1", "max32"}
-    [] f = "cfoot_last"                               -> {"zero", "gt_block", "max32"}
+    [] f = "cfoot_size"                               -> {"zero", "plus1", "max32", "sign31"}
+    [] f = "cfoot_last"                               -> {"zero", "gt_block", "max32", "sign31"}
     [] f = "cblock_data"                              -> {"flipped"}      \* a byte of the first compressed block
     [] f = "truncate"                                 -> {"in_header", "in_blocks", "in_index", "minus1", "minus4"}
     [] f = "many_foreign"                             -> {"chain"}        \* an index run pointing at a long chain of foreign blocks
